@@ -152,6 +152,15 @@ def gen_c01_extra(ctx, thorough):
             for sid in perm:
                 steps.append(finish(sid, kind=rng.choice(['buf', 'stream', 'streamcl']), n=rng.choice([0, 7, 20000]), hdrs_=[["x-sid-echo", str(sid)]]))
         out.append({'tag': 'interleave', 'cfg': {'maxConc': 4}, 'steps': steps})
+    # frame objects come from pools: requests whose HEADERS carry priority fields that name a stream not opened yet, then a
+    # plain request on exactly that stream - it depends on nothing, whatever the recycled frame object last held
+    for dep, weight in ((41, 7), (101, 255)):
+        steps = []
+        for i in range(12):
+            sid = 1 + 2 * i
+            steps += req(sid, prio={"dep": dep, "excl": i % 2 == 1, "weight": weight}) + [finish(sid, n=1)]
+        steps += req(dep, extra=[["x-plain", "1"]]) + [finish(dep, n=2)] + req(dep + 2) + [finish(dep + 2, n=1)]
+        out.append({'tag': 'prio-recycled', 'cfg': {'maxConc': 4}, 'steps': steps})
     return out + gen_bighdr_queue(ctx, thorough)
 
 
